@@ -1,5 +1,5 @@
 import Hive.Proofs.Ads
-import Hive.Proofs.AdsTrie
+import Hive.Proofs.AdsTrieExt
 /-!
 # C09 — authenticated map / set: contents, content-only root, faithful reopen
 
@@ -359,6 +359,46 @@ theorem C09_trie_root_injective {H : Type} (h : Hash H) (cf : CollisionFree h) (
     ∀ p, specRun ops₁ p = specRun ops₂ p := by
   intro p
   rw [← (runOps_spec ops₁ hw₁).2, ← (runOps_spec ops₂ hw₂).2, digest_inj cf _ _ hroot]
+
+open SMT in
+/-- **Extension nodes change nothing**: along every history smt's trie *with* extension nodes
+(`update` with `ext.split`, `delete` with join and absorb) expands to the trie without them, stays
+well-formed, and `Get` on it is `Get` on the expansion. -/
+theorem C09_trie_ext_expand (n : Nat) (ops : List TOp) (hw : ∀ op ∈ ops, op.path.length = n) :
+    (runOpsT ops).expand = runOps ops ∧ (runOpsT ops).WT ∧
+    ∀ p : Path, p.length = n → (runOpsT ops).get 0 p = specRun ops p := by
+  obtain ⟨h1, h2⟩ := runOpsT_expand ops hw
+  refine ⟨h1, h2, fun p hp => ?_⟩
+  have hnf : NF n [] (runOpsT ops).expand := by rw [h1]; exact (runOps_spec ops hw).1
+  have := get_expand (runOpsT ops) [] p h2 hnf hp
+  simp only [List.length_nil] at this
+  rw [this, h1, ← (runOps_spec ops hw).2]; rfl
+
+open SMT in
+/-- **History independence of the root of the trie with extension nodes** (`hashNode` of an
+extension node is `hashNode` of its expansion): equal contents ⇒ equal roots, for any hash functions. -/
+theorem C09_trie_ext_history_independent {H : Type} (h : Hash H) (n : Nat) (ops₁ ops₂ : List TOp)
+    (hw₁ : ∀ op ∈ ops₁, op.path.length = n) (hw₂ : ∀ op ∈ ops₂, op.path.length = n)
+    (heq : ∀ p, specRun ops₁ p = specRun ops₂ p) :
+    (runOpsT ops₁).digest h = (runOpsT ops₂).digest h := by
+  simp only [T.digest, (runOpsT_expand ops₁ hw₁).1, (runOpsT_expand ops₂ hw₂).1]
+  exact C09_trie_history_independent h n ops₁ ops₂ hw₁ hw₂ heq
+
+open SMT in
+/-- Non-vacuity for the extension-node surgery: an extension is created, split inside, its child
+leaf moves above it, extensions are joined and absorbed — and the expansion is the plain trie. -/
+example :
+    runOpsT [.put [true, true, true, false] [1], .put [true, true, true, true] [2]]
+      = .ext [true, true, true] (.inner (.leaf [true, true, true, false] [1]) (.leaf [true, true, true, true] [2])) ∧
+    runOpsT [.put [true, true, true, false] [1], .put [true, true, true, true] [2], .put [true, false, true, true] [3]]
+      = .ext [true] (.inner (.leaf [true, false, true, true] [3])
+          (.ext [true] (.inner (.leaf [true, true, true, false] [1]) (.leaf [true, true, true, true] [2])))) ∧
+    runOpsT [.put [true, true, true, false] [1], .put [true, true, true, true] [2], .put [true, false, true, true] [3],
+             .del [true, false, true, true]]
+      = .ext [true, true, true] (.inner (.leaf [true, true, true, false] [1]) (.leaf [true, true, true, true] [2])) ∧
+    runOpsT [.put [true, true, true, false] [1], .put [true, true, true, true] [2], .del [true, true, true, false]]
+      = .leaf [true, true, true, true] [2] := by
+  decide
 
 open SMT in
 /-- Non-vacuity: with the free hash, two different histories over 3-bit paths reach one trie whose
